@@ -19,7 +19,7 @@ RULE = ("generated bodies E (C04 grammar with ^/^^ under map/filter/sort_by/pipe
         "distinct_nontrivial = distinct (binding form, uses-parent-under-binding, body text) with the value present for at least one input")
 
 FORMS = ("set", "define", "preset-var", "preset-macro", "position", "position-split", "pipe-parent", "macro-late-var", "recursive-macro", "set-twin",
-         "selected-under-binding", "preset-in-stage",
+         "selected-under-binding", "preset-in-stage", "frame-names",
          "computed-name")
 # terminating self-referential macro bodies (tree and linear recursion) that read the enclosing input or a variable bound on the way down
 RECURSIVE = [
@@ -117,6 +117,25 @@ def gen_unit(rng):
         if rng.random() < 0.5:
             u["pre"] = ["--set", "@pm=(push [] /first/ 1)", "--set", "pv=7"] + u["pre"]
             cands += [("@pm", "(push [] /first/ 1)"), ("(push [] /first/ :pv)", "(push [] /first/ 7)")]
+        for a, b in rng.sample(cands, rng.choice((1, 2, 3))):
+            u["pairs"].append((a, b, False))
+        return u
+    if form == "frame-names":
+        # functions that hand their body an object with members called so_far / value / index / key bind no variables of
+        # those names: a user's variable of that name is still the user's; and a variable and a macro may share a name
+        cands = [('(set "index" 7 (fold .arr 0 (+ (default .so_far 0) :index)))', '(fold .arr 0 (+ (default .so_far 0) 7))'),
+                 ('(set "value" 5 (fold .arr [] (push (default .so_far []) :value)))', '(fold .arr [] (push (default .so_far []) 5))'),
+                 ('(set "so_far" "x" (fold .strs "" (concat (default .so_far "") :so_far)))', '(fold .strs "" (concat (default .so_far "") "x"))'),
+                 ('(set "key" 1 (map (entries .obj) (push [] .key :key)))', '(map (entries .obj) (push [] .key 1))'),
+                 ('(set "index" 9 (map (indexed .arr) (+ .index :index)))', '(map (indexed .arr) (+ .index 9))'),
+                 ('(set "value" 2 (map_values .obj (push [] . :value)))', '(map_values .obj (push [] . 2))'),
+                 ('(set "value" [1] (map (indexed .strs) (push :value .value)))', '(map (indexed .strs) (push [1] .value))'),
+                 ('(define "value" (size .) (fold .arr 0 (+ (default .so_far 0) (default @value 0))))', '(fold .arr 0 (+ (default .so_far 0) (default (size .) 0)))')]
+        if rng.random() < 0.5:
+            u["pre"] = ["--set", "index=3", "--set", "@index=(size .)", "--set", "@twin=(+ 1 1)", "--set", "twin=\"t\""]
+            rng.shuffle(u["pre"]) if False else None
+            cands += [("(fold .arr 0 (+ (default .so_far 0) :index))", "(fold .arr 0 (+ (default .so_far 0) 3))"), ("(push [] :twin @twin :index @index)", '(push [] "t" (+ 1 1) 3 (size .))'),
+                      ("(map .arr (push [] :index @twin))", "(map .arr (push [] 3 (+ 1 1)))")]
         for a, b in rng.sample(cands, rng.choice((1, 2, 3))):
             u["pairs"].append((a, b, False))
         return u
